@@ -178,7 +178,8 @@ def rg_graph(k, flag=False):
     return d
 
 
-def regmc_batch(work, res, quick, rng):
+def regmc_edges(work, res, key="regseqmc"):
+    """explore spec/RegSeqMC.tla; returns its transitions"""
     import json
     import os
     base = rg_graph(0, flag=True)
@@ -196,8 +197,13 @@ def regmc_batch(work, res, quick, rng):
     edges = vlib.tlc_printed_json(out, "EDGE")
     res.tlc_states += st.get("distinct", 0)
     res.tlc_transitions += st.get("generated", 0)
-    res.extra["regseqmc"] = {"states": st.get("distinct", 0), "transitions": len(edges),
+    res.extra[key] = {"states": st.get("distinct", 0), "transitions": len(edges),
                              "kinds": {k: sum(1 for e in edges if e["kind"] == k) for k in ("fast", "hit", "built", "rejected")}}
+    return edges
+
+
+def regmc_batch(work, res, quick, rng):
+    edges = regmc_edges(work, res)
     if quick:
         rng.shuffle(edges)
         edges = edges[:150]
